@@ -24,6 +24,8 @@ CHECKS = {
          'runtime monitor: online terminal-state checker (SGR/OSC 8 balance, no split sequences)', '5/C09'),
  'C10': ('exploration', 'stdout(A1..An) compared byte-for-byte with the concatenation of stdout(Ai) for sequences of complete file sections, all ordered pairs of (kind, ending) shapes in the thorough tier; repeated fresh-process runs for determinism',
          'runtime monitor: relational (concatenation / re-run) oracle over section histories', '5/C10'),
+ 'C12': ('exploration', 'painted cells decoded by the terminal model compared with an independent reference parser of the style language, for 11 style-typed options x enumerated (<=3 tokens over every token class, all 256 palette numbers) and random style strings x 24-bit/256-colour mode; invalid strings must be rejected; --show-config round trip must reproduce the rendering',
+         'runtime monitor: reference parser vs painted cells, plus show-config round-trip relation', '5/C12'),
  'C13': ('exploration', 'sentinel placements over the source lattice (command line, [delta], GIT_CONFIG_PARAMETERS, custom features through every enabling mechanism, nested features, built-in feature defaults, --no-gitconfig) resolved by `delta --show-config` and compared with a resolver written from the documentation; every placement re-resolved in fresh processes for determinism',
          'runtime monitor: reference resolver vs --show-config over an enumerated small-scope lattice, repeated runs for determinism', '5/C13'),
  'C14': ('exploration', 'rendered rows walked strictly against the generated section model: exactly one file header row per section with exactly the expected text (paths, label, arrow, mode/binary note) and one header row per hunk carrying the fragment',
